@@ -143,7 +143,7 @@ func getStateValidatorApply(native *native.NativeService, applyID uint64) (*Stat
 		return nil, fmt.Errorf("getStateValidatorApply, get stateValidatorListParamStore error: %v", err)
 	}
 	if svListParamStore == nil {
-		return nil, nil
+		return nil, fmt.Errorf("getStateValidatorApply, can't find any record")
 	}
 	svListParam := new(StateValidatorListParam)
 	svListParamBytes, err := cstates.GetValueFromRawStorageItem(svListParamStore)
@@ -210,7 +210,7 @@ func getStateValidatorRemove(native *native.NativeService, removeID uint64) (*St
 		return nil, fmt.Errorf("getStateValidatorRemove, get stateValidatorListParamStore error: %v", err)
 	}
 	if svListParamStore == nil {
-		return nil, nil
+		return nil, fmt.Errorf("getStateValidatorRemove, can't find any record")
 	}
 	svListParam := new(StateValidatorListParam)
 	svListParamBytes, err := cstates.GetValueFromRawStorageItem(svListParamStore)
